@@ -366,6 +366,41 @@ def run_with_degenerate_member(ctx, m):
                 return
 
 
+def run_same_sigma_sequence(ctx):
+    """several whitened comparisons in a row with ONE sigma_k on pattern-bootstrapped RDMs (a repeated condition leaves a
+    NaN entry; the samples differ in where it sits, not in how many there are): each value equals the definition on the
+    entries present, with the matching rows and columns of V deleted -- whatever was computed before"""
+    rng = ctx.rng
+    n_cond = int(rng.integers(5, 8))
+    m = gen.pick(rng, ['cosine_cov', 'corr_cov'])
+    sk = gen.pick(rng, ['vector', 'matrix'])
+    sigma = rng.uniform(0.5, 3.0, size=n_cond) if sk == 'vector' else gen.spd(rng, n_cond, 30.0)
+    src1 = RDMs(gen.rdm_vectors(rng, 2, n_cond, 'eucl'))
+    src2 = RDMs(gen.rdm_vectors(rng, 1, n_cond, 'pos'))
+    sig = dict(measure=m, sigma=sk, what='sequence_same_sigma')
+    ii, jj = np.triu_indices(n_cond, 1)
+    for step in range(3):
+        idx = np.arange(n_cond)
+        dup = int(rng.integers(n_cond - 1))
+        idx[dup + 1] = idx[dup]                      # one condition drawn twice, at a position that moves
+        a, b = src1.subsample_pattern('index', idx), src2.subsample_pattern('index', idx)
+        va, vb = a.get_vectors(), b.get_vectors()
+        keep = ~np.isnan(va[0])
+        wit = lambda **k: dict(measure=m, sigma_k=sigma, idx=idx, step=step, va=va, vb=vb, **k)  # noqa: E731,B023
+        ok, got = ctx.guarded('definition:' + m, sig, compare, a, b, method=m, sigma_k=sigma.copy(), data=wit)
+        if not ok:
+            return
+        ctx.case('definition:' + m, sig)
+        # sigma_k refers to the conditions of the sample: position p of the sample holds condition idx[p]
+        v = ref.v_matrix(n_cond, sigma)[np.ix_(keep, keep)]
+        f = ref.whitened_cosine if m == 'cosine_cov' else ref.whitened_corr
+        want = np.array([[f(x[keep], y[keep], v) for y in vb] for x in va])
+        if not close(np.asarray(got), want, 5e-4, 5e-5):
+            ctx.fail('definition:' + m, sig, f'call {step + 1} of a sequence with the same sigma_k: max |got-want| = '
+                     f'{maxdiff(got, want)}', wit(got=got, want=want))
+            return
+
+
 def run(ctx):
     n = ctx.n(330, 3000)
     for it in range(n):
@@ -377,6 +412,15 @@ def run(ctx):
         if degenerate(case):
             ctx.count('rejected_degenerate')
             continue
+        if not measure.startswith('bures') and not case['ustore'] and case['v1'].dtype.kind == 'f' and it % 4 == 1:
+            # measurement units: squared distances of MEG data in T^2 are of order 1e-24, of raw scanner values 1e8; all
+            # measures but the Bures metric are free of the unit of either side
+            u1, u2 = (10.0 ** float(gen.pick(ctx.rng, [-24, -12, -10, 8])) for _ in range(2))
+            case['v1'], case['v2'] = case['v1'] * u1, case['v2'] * u2
+            case['kind'] = case['kind'] + '_unit'
+            ctx.count('cases_in_other_units')
         run_case(ctx, case)
+        if it % 10 == 3:
+            run_same_sigma_sequence(ctx)
         if it % 6 == 0:
             run_with_degenerate_member(ctx, gen.pick(ctx.rng, ['cosine', 'corr', 'spearman', 'cosine', 'corr']))
